@@ -558,12 +558,25 @@ func (d *Dumper) expr(e ast.Expr) {
 		d.expr(x.X)
 		d.w(" " + d.typStr(d.Info.TypeOf(x.Type)) + ")")
 	case *ast.CompositeLit:
-		d.w("(complit " + d.typStr(d.Info.TypeOf(x)))
+		lt := d.Info.TypeOf(x)
+		closeAddr := false
+		if pt, ok := lt.Underlying().(*types.Pointer); ok && x.Type == nil {
+			// an elided element literal of pointer type, []*T{{...}}, is &T{...}: the same program either way
+			lt = pt.Elem()
+			d.w("(&u ")
+			closeAddr = true
+		}
+		defer func() {
+			if closeAddr {
+				d.w(")")
+			}
+		}()
+		d.w("(complit " + d.typStr(lt))
 		for _, el := range x.Elts {
 			d.w(" ")
 			if kv, ok := el.(*ast.KeyValueExpr); ok {
 				if id, ok := kv.Key.(*ast.Ident); ok {
-					if _, isStruct := d.Info.TypeOf(x).Underlying().(*types.Struct); isStruct {
+					if _, isStruct := lt.Underlying().(*types.Struct); isStruct {
 						d.w(id.Name + ":")
 						d.expr(kv.Value)
 						continue
